@@ -344,12 +344,12 @@ impl Sync for CopiaSync {
         delta: &Delta,
         mut output: W,
     ) -> Result<()> {
-        // Invariant: expected output matches source size
-        debug_assert_eq!(
-            delta.expected_output_size(),
-            delta.source_size,
-            "expected output size must equal source size"
-        );
+        // The delta is untrusted input: if its operations do not add up to the
+        // declared source size it is corrupt. Report that instead of asserting
+        // (a debug build would abort on a hostile delta).
+        if delta.expected_output_size() != delta.source_size {
+            return Err(CopiaError::CorruptedDelta);
+        }
 
         // Validate delta first
         delta.validate()?;
